@@ -357,7 +357,8 @@ Record src := mk_src {
   s_res_ok : bool;           (* res_range is None or contains the query *)
   s_transparent : option bool; (* image_opts.transparent: None / False / True *)
   s_opacity : option fl;
-  s_cov : Z;                 (* 0 no coverage, 1 contains the query bbox, 2 intersects, 3 disjoint *)
+  s_cov : Z;                 (* 0 no coverage, 1 contains the query bbox, 2 intersects, 3 disjoint,
+                                4 intersects (touches) but the sub-image inside the extent has no pixel *)
   s_url : Z;                 (* request_template.url *)
   s_lnames : list Z;         (* request_template.params.layers *)
   s_srs : Z; s_fmts : Z;     (* supported_srs, supported_formats (equality classes) *)
@@ -378,7 +379,8 @@ Definition src_is_opaque (s : src) : bool :=
 
 (* WMSSource.get_map: BlankImage outside the resolution range / coverage *)
 Definition src_blank (s : src) : bool :=
-  negb (s_res_ok s) || (s_cov s =? 3).
+  negb (s_res_ok s) || (s_cov s =? 3)
+  || (s_cov s =? 4).        (* _get_sub_query: `if size[0] == 0 or size[1] == 0: raise BlankImage()` *)
 
 Definition opt_rgb_eqb (a b : option rgb) : bool := opt_eqb rgb_eqb a b.
 
